@@ -31,6 +31,8 @@ def kinds_in(s):
 
 def run(chk):
     w = C.world_for(chk)
+    from . import c01_addscore
+    c01_addscore.run(chk, w)
     for rid, txt in (("R09.1", "kind consistency char<->type"), ("R09.2", "arm forms and twins"),
                      ("R09.3", "dictionary role flow"), ("R09.4", "bias provenance")):
         chk.rule(rid, txt)
